@@ -215,6 +215,47 @@ pub fn body(msg_units: usize, witness: bool) {
     }
 }
 
+/// Constant-size instance (DESIGN.md 9.8, rule 23): message of `mlen` bytes whose CONTENT is
+/// symbolic over the one-byte alphabet {" \ LF 0x01 a}; level, target, optional fields and MDC are
+/// instance constants (level Info, target "t", no module / file / line, no MDC entry).
+pub fn body_sized(mlen: usize, witness: bool) {
+    crate::c16_time::install(crate::c16_time::UTC0, 1704067200, 0);
+    const AL: [u8; 5] = [b'"', b'\\', b'\n', 0x01, b'a'];
+    let mut msg = [0u8; 4];
+    for i in 0..mlen {
+        msg[i] = AL[sym::below(5) as usize];
+    }
+    unsafe {
+        MDC_PRESENT = false;
+    }
+    #[cfg(not(kani))]
+    log_mdc::clear();
+    let msg_s = unsafe { std::str::from_utf8_unchecked(&msg[..mlen]) };
+    let time = Utc.timestamp_opt(1704067200, 0).unwrap().with_timezone(&Local);
+    let mut sink = BigSink { buf: [0; 256], len: 0 };
+    let res = JsonEncoder::new().verif_encode_inner(
+        &mut sink,
+        time,
+        &Record::builder().level(Level::Info).target("t").args(format_args!("{}", msg_s)).build(),
+    );
+    assert!(res.is_ok());
+    let mut o = Out { buf: [0; 256], n: 0 };
+    o.raw(b"{\"time\":\"2024-01-01T00:00:00+00:00\",\"level\":\"INFO\",\"message\":");
+    o.string(&msg[..mlen]);
+    o.raw(b",\"target\":\"t\",\"thread\":\"main\",\"thread_id\":7,\"mdc\":{}}\n");
+    assert!(sink.len == o.n, "C12: exactly one JSON object and one newline (length)");
+    let mut i = 0;
+    while i < 256 {
+        if i < o.n {
+            assert!(sink.buf[i] == o.buf[i], "C12: the line equals the RFC 8259 rendering of the record's fields");
+        }
+        i += 1;
+    }
+    if witness {
+        assert!(false, "WITNESS");
+    }
+}
+
 harnesses! {
     common {
         #[cfg_attr(kani, kani::stub(<chrono::Local as chrono::TimeZone>::offset_from_utc_datetime, crate::c16_time::stub_offset_from_utc))]
@@ -224,6 +265,10 @@ harnesses! {
         #[cfg_attr(kani, kani::stub(<anyhow::Error as std::ops::Drop>::drop, crate::util::stub_anyhow_drop))]
         #[cfg_attr(kani, kani::stub(<anyhow::Error as std::convert::From<std::io::Error>>::from, crate::util::stub_anyhow_from_cut))]
     }
+    #[kani::unwind(12)]
+    fn json_sized1() { body_sized(1, false) }
+    #[kani::unwind(12)]
+    fn json_sized2() { body_sized(2, false) }
     #[kani::unwind(12)]
     fn json_1unit() { body(1, false) }
     #[kani::unwind(12)]
